@@ -1,5 +1,5 @@
 (* C03 -- list / byte-count / transport-script lemmas shared by the gateway proofs. *)
-From Coq Require Import List NArith ZArith Bool Lia.
+From Coq Require Import List NArith ZArith Bool Lia ZifyBool.
 From Muscle Require Import Gw.GwBase.
 Import ListNotations.
 Local Open Scope N_scope.
